@@ -2849,6 +2849,7 @@ class Network:
             if isinstance(i, Network):
                 if not i.units.isdisjoint(recycle_units):
                     network.join_recycle_network(i)
+                    path.remove(i)
             elif i in recycle_units:
                 path_segment.append(i)
         linear_network = Network(path_segment)
